@@ -214,6 +214,53 @@ def run(ctx):
                                  sorted(ALLOWED_NEW), {where: sorted(unknown)})
     formats(ctx)
     candidates(ctx)
+    shared_options(ctx)
+
+
+def shared_options(ctx):
+    """option objects (tuples with dictionaries inside) handed to two builds: the second build gets what the first one got, and
+    the caller's objects come back as they were"""
+    import copy
+    import pyamg
+    from pyamg.gallery import poisson
+    A = sp.csr_array(poisson((7, 6), format='csr'))
+    optsets = [('rootnode', pyamg.rootnode_solver, dict(smooth=('energy', {'krylov': 'cg', 'maxiter': 2, 'degree': 2, 'postfilter': {'theta': 0.1}}))),
+               ('rootnode', pyamg.rootnode_solver, dict(smooth=('energy', {'krylov': 'cg', 'maxiter': 2, 'degree': 2, 'prefilter': {'theta': 0.1}, 'postfilter': {'k': 3}}))),
+               ('sa', pyamg.smoothed_aggregation_solver, dict(smooth=('energy', {'krylov': 'gmres', 'maxiter': 2, 'postfilter': {'theta': 0.05}}),
+                                                              strength=('symmetric', {'theta': 0.1}))),
+               ('sa', pyamg.smoothed_aggregation_solver, dict(strength=[('symmetric', {'theta': 0.0}), ('evolution', {'k': 2})],
+                                                              aggregate=['standard', ('lloyd', {'ratio': 0.3})], max_levels=4)),
+               ('rs', lambda M, **kw: pyamg.ruge_stuben_solver(M, **kw), dict(strength=('classical', {'theta': 0.25}), presmoother=('gauss_seidel', {'sweep': 'symmetric'}))),
+               ('air', lambda M, **kw: pyamg.air_solver(M, **kw), dict(strength=('classical', {'theta': 0.3, 'norm': 'min'}),
+                                                                     restrict=('air', {'theta': 0.05, 'degree': 1})))]
+    for cname, ctor, kw in optsets:
+        before = copy.deepcopy(kw)
+        case = dict(constructor=cname, options=repr(before))
+        ctx.mark(case)
+        try:
+            with warnings.catch_warnings():
+                warnings.simplefilter('ignore')
+                np.random.seed(ctx.seed + 6)
+                m1 = ctor(A.copy(), max_coarse=4, **kw)
+                s1 = snapshot_levels(m1)
+                mid = copy.deepcopy(kw)
+                np.random.seed(ctx.seed + 6)
+                m2 = ctor(A.copy(), max_coarse=4, **kw)
+                s2 = snapshot_levels(m2)
+                np.random.seed(ctx.seed + 6)
+                m3 = ctor(A.copy(), max_coarse=4, **copy.deepcopy(before))
+                s3 = snapshot_levels(m3)
+        except Exception as e:   # noqa
+            ctx.fail('setup/shared-options/raises', repr(e), case)
+            continue
+        ctx.case(('shared-options', cname, repr(before)), True)
+        ctx.count('shared-options')
+        if repr(mid) != repr(before) or repr(kw) != repr(before):
+            # (per-level lists are padded in place by the constructors: not a claim of the property, which is about what is BUILT)
+            ctx.count('shared-options:objects-changed-by-setup')
+        if s1 != s2 or s1 != s3:
+            ctx.fail('setup-not-reproducible/shared-options/' + cname, 'a second build with the SAME option objects (same matrix, same seed) gives other levels%s'
+                     % ('' if s1 == s3 else ' (and so does a build with a fresh copy of the options)'), case)
 
 
 def candidates(ctx):
@@ -284,17 +331,29 @@ def formats(ctx):
     Pz = P0.copy()
     Pz.data[[2, 9, 17, 40, 41, 77]] = 0.0
     variants.append(('float64/stored-zeros', Pz, np.ones((30, 1))))
+    from pyamg.gallery import stencil_grid
+    from pyamg.gallery.diffusion import diffusion_stencil_2d
+    Pan = sp.csr_array(stencil_grid(diffusion_stencil_2d(epsilon=0.01, theta=0.4, type='FD'), (6, 5), format='csr'))
+    variants.append(('float64/anisotropic', Pan, np.ones((30, 1))))
     for vname, P, B in variants:
       for bname, f in (('classical', lambda M: pyamg.ruge_stuben_solver(M, max_coarse=3)),
                        ('sa', lambda M: pyamg.smoothed_aggregation_solver(M, B=B, max_coarse=3)),
                        ('rootnode', lambda M: pyamg.rootnode_solver(M, B=B, max_coarse=3)),
                        ('pairwise', lambda M: pyamg.pairwise_solver(M, max_coarse=3)),
-                       ('air', lambda M: pyamg.air_solver(M, max_coarse=3))):
+                       ('air', lambda M: pyamg.air_solver(M, max_coarse=3)),
+                       # option paths that look at the entries of the matrix through products / sums
+                       ('sa-diagdom', lambda M: pyamg.smoothed_aggregation_solver(M, B=B, diagonal_dominance=True, max_coarse=3)),
+                       ('rootnode-diagdom', lambda M: pyamg.rootnode_solver(M, B=B, diagonal_dominance=(True, {'theta': 1.2}), max_coarse=3)),
+                       ('sa-jacobi-filter', lambda M: pyamg.smoothed_aggregation_solver(
+                           M, B=B, strength=('symmetric', {'theta': 0.3}), smooth=('jacobi', {'filter_entries': True}), max_coarse=3)),
+                       ('sa-evolution', lambda M: pyamg.smoothed_aggregation_solver(M, B=B, strength=('evolution', {'k': 2}), max_coarse=3))):
           ref = None
-          for fmt in (('csr', 'csc', 'coo', 'lil', 'dia', 'bsr', 'dense', 'csr-unsorted') if not vname.endswith('stored-zeros') else ('csr', 'csc', 'coo')):
+          for fmt in (('csr', 'csc', 'coo', 'lil', 'dia', 'bsr', 'dense', 'csr_matrix', 'bsr_matrix', 'csc_matrix', 'csr-unsorted') if not vname.endswith('stored-zeros') else ('csr', 'csc', 'coo')):
               if fmt == 'csr-unsorted':
                   from .. import gen as _gen
                   M = _gen.unsorted_copy(P, ctx.sub('unsorted-' + bname))       # CSR with shuffled column order in each row
+              elif fmt.endswith('_matrix'):
+                  M = getattr(sp, fmt)(P)       # the legacy SciPy matrix classes ('*' is a matrix product there)
               else:
                   M = P.toarray() if fmt == 'dense' else P.asformat(fmt)
               keep = P.toarray().copy()
@@ -308,6 +367,9 @@ def formats(ctx):
                       ml = f(M)
               except Exception as e:   # noqa
                   ctx.count('format-unsupported:%s/%s' % (bname, fmt))
+                  if ref is not None and (bname, fmt) not in (('air', 'dense'),):
+                      # the CSR input of the same data built a hierarchy: an input class / format that is accepted elsewhere must not fail
+                      ctx.fail('format-dependent-hierarchy/%s/raises' % bname, '%s input raises %r while CSR input of the same matrix builds a hierarchy' % (fmt, e), case)
                   continue
               ctx.case(('format', bname, fmt, vname), True)
               ctx.count('format:' + fmt)
